@@ -291,4 +291,16 @@ def resolveCHPP (p : CHPP) (q : CHPProfP) (base : AssetProblem) (g : Grid) (pric
 def CHPProfP.active (q : CHPProfP) : Bool :=
   (match q.startLo with | some l => !l.isEmpty | none => false) || (match q.shutLo with | some l => !l.isEmpty | none => false)
 
+/-- model of `CHPAsset.setup_optim_problem` / `Plant` with profiles -/
+def buildCHPP (p : CHPP) (q : CHPProfP) (base : AssetProblem) (g : Grid) (prices : Prices) (unitSec stepSec : Nat) :
+    Except BuildError AssetProblem := do
+  match ← resolveCHPP p q base g prices unitSec stepSec false with
+  | none => pure base
+  | some r => pure (assembleCHPP r)
+
+/-- the builder for either case: with a profile `buildCHPP`, without `buildCHP` -/
+def buildCHPAny (p : CHPP) (q : CHPProfP) (base : AssetProblem) (g : Grid) (prices : Prices) (unitSec stepSec : Nat) :
+    Except BuildError AssetProblem :=
+  if q.active then buildCHPP p q base g prices unitSec stepSec else buildCHP p base g prices unitSec stepSec
+
 end EAO
